@@ -130,6 +130,23 @@ func runFaulty(sc *Scenario, dbPath string, sites []faultSite, record *[]faultSi
 // activations (both zeroing calls), a snapshot + developer payout height, the
 // mint and mint-burn heights, with SPR sets, transfers and conversions.
 func genFaultChain(t *rapid.T) *Scenario {
+	switch rapid.IntRange(0, 7).Draw(t, "legacyFamily") {
+	case 0, 1:
+		// the PEG-bank eras (per-height 5,000 PEG payouts, then the bank table): statements that
+		// only the legacy rules issue (pn_bank, PEG-request outcomes, refunds)
+		sc, _ := GenBankScenario(t, nil)
+		return sc
+	case 2:
+		// every era in one chain, incl. the legacy graders and FCT burns. A crash or a fault that
+		// makes the daemon exit is followed by a restart, and a restart inside the PIP-10 era of a
+		// timeline chain (short window over ungraded heights) changes the averages — the registered
+		// finding C09/avg-window, not this property's business: the chain stops before that era.
+		sc := GenTimelineScenario(t, DefaultCfg())
+		if Open("C09/avg-window") {
+			truncateBeforePIP10(sc)
+		}
+		return sc
+	}
 	if rapid.IntRange(0, 2).Draw(t, "plainFamily") == 0 {
 		// a plain 2.0.2+ chain: every block starts with grading, no activation-height preamble
 		cfg := DefaultCfg()
@@ -236,7 +253,9 @@ func TestC10(t *testing.T) {
 	maxSites := 60
 	pairs := 0
 	if tier() == "thorough" {
-		maxSites = 1 << 30
+		// chains with up to 2,500 sites are enumerated exhaustively (the 2.0 families always are),
+		// longer ones (legacy / timeline chains) by the stratified sample
+		maxSites = 2500
 		pairs = 40
 	}
 	rapid.Check(t, func(rt *rapid.T) {
